@@ -49,7 +49,7 @@ def run(ctx):
     ctx.require_obs("scenarios_timerservice", "scenarios_timerpool", "timers_fired", "cancel_true", "cancel_false",
                     "cancel_lost_race_to_fire", "reschedule_true", "periodic_timers", "discarded_by_shutdown",
                     "late_schedule_refused", "shutdown_stop_racing", "shutdown_drain_racing", "clock_reads_delayed", "scenarios_in_second_life_timerservice", "bursts_due_around_shutdown", "timers_with_sub_millisecond_delay",
-                    "wheel_scenarios_with_dispatcher", "long_handler_scenarios", "long_timerservice_stop", "long_timerservice_stop-after-timed-out-drain", "long_timerpool_stop",
+                    "wheel_scenarios_with_dispatcher", "scenarios_with_statistics_disabled", "scenarios_with_one_event_epoll_batch", "long_handler_scenarios", "long_timerservice_stop", "long_timerservice_stop-after-timed-out-drain", "long_timerpool_stop",
                     "long_timerservice_destructor", "long_wheel1_stop", "long_wheel1_drain-with-timeout", "long_drain_timed_out",
                     "long_timerservice_stop-during-drain-of-another-thread", "long_timerservice_second-concurrent-stop",
                     "long_wheel1_stop-during-drain-of-another-thread", "long_wheel_drain_firing_when_stop_called",
